@@ -16,4 +16,4 @@ cp $D/repo/$F $D/mutant.bak
 sed -i "$E" $D/repo/$F
 if cmp -s $D/repo/$F $D/mutant.bak; then echo "MUTATION DID NOT APPLY"; exit 3; fi
 ( cd $D/repo && diff -u $D/mutant.bak $F | head -20 | grep '^[-+]' | grep -v '^[-+][-+]' )
-for c in "$@"; do VERIF_PRIVATE=$D VERIF_REPO=$D/repo /verif/bin/check $c quick 2>&1 | grep -E "VIOLATION|held|TOOL-ERROR|KNOWN" ; done
+for c in "$@"; do VERIF_PRIVATE=$D VERIF_REPO=$D/repo /verif/bin/check $c quick 2>&1 | grep -E "VIOLATION|held|TOOL-ERROR|KNOWN|Error|rror:" | cut -c1-400 ; done
